@@ -871,6 +871,7 @@ func (c *c19) family(f c19Flags) {
 			return
 		}
 		c.decomps[fd] = true
+		c.bound[fd] = true
 		ev := newEval(fd)
 		d := ev.CollectBitTests(fd.Body)
 		tested := map[string]int{}
@@ -1022,12 +1023,12 @@ func (c *c19) family(f c19Flags) {
 		for tv := range ev.Tables {
 			c.registerTable(tv, dkey)
 		}
-		mapRanges := len(tables.MapRanges(info, fd.Body))
+		mapRanges := len(tables.MapOrderSites(info, fd.Body))
 		ownRanges := mapRanges
 		for _, h := range d.Helpers {
 			c.decomps[h] = true // map iterations inside a helper are decided by `order` like the decomposer's own
 			if _, hinfo := c.sourceOfDecl(h); hinfo != nil {
-				mapRanges += len(tables.MapRanges(hinfo, h.Body))
+				mapRanges += len(tables.MapOrderSites(hinfo, h.Body))
 			}
 			how = append(how, "tests in helper "+h.Name.Name)
 		}
@@ -1077,6 +1078,7 @@ func (c *c19) family(f c19Flags) {
 				continue
 			}
 			c.decomps[fd] = true
+			c.bound[fd] = true
 			var loops []*ast.RangeStmt
 			for _, rs := range tables.MapRanges(info, fd.Body) {
 				if c.tableOf(info, rs.X) == tv {
@@ -1366,35 +1368,112 @@ func (c *c19) tableOf(info *types.Info, e ast.Expr) *types.Var {
 // ---------------------------------------------------------------- order
 
 // orderEverywhere decides every map iteration inside a bound decomposer and
-// every iteration over a registered name table anywhere in the module.
+// every iteration over a registered name table anywhere in the module: a
+// `range` over the map, a `range` over maps.Keys / Values / All of it, or
+// slices.Collect of those. A function that is not exported and returns the
+// slice it filled in map order (a two-phase split: collect, then sort) is
+// decided at its call sites: each must sort the result before any other use.
 func (c *c19) orderEverywhere() {
 	r := c.R
+	type fnInfo struct {
+		rel  string
+		pk   *packages.Package
+		fd   *ast.FuncDecl
+		name string
+	}
+	var all []fnInfo
 	for _, pk := range c.P.Pkgs {
 		rel := strings.TrimPrefix(strings.TrimPrefix(pk.PkgPath, c.P.ModPath), "/")
 		for _, file := range pk.Syntax {
 			for _, d := range file.Decls {
-				fd, ok := d.(*ast.FuncDecl)
-				if !ok || fd.Body == nil {
-					continue
-				}
-				for _, rs := range tables.MapRanges(pk.TypesInfo, fd.Body) {
-					tv := c.tableOf(pk.TypesInfo, rs.X)
-					if tv == nil && !c.decomps[fd] {
-						continue
-					}
-					con := fmt.Sprintf("%s: range %s", c19FuncName(rel, fd), types.ExprString(rs.X))
-					pos := c.P.Rel(rs.Pos())
-					st, why := tables.OrderAfterRange(pk.TypesInfo, fd.Body, rs)
-					switch st {
-					case "ok":
-						r.OK("order", con, pos, "every variable filled by the iteration is sorted before any other use")
-					case "fail":
-						r.Fail("order", con, pos, "map iteration order reaches the result: "+why)
-					default:
-						r.Undecided("order", con, pos, why)
-					}
+				if fd, ok := d.(*ast.FuncDecl); ok && fd.Body != nil {
+					all = append(all, fnInfo{rel, pk, fd, c19FuncName(rel, fd)})
 				}
 			}
+		}
+	}
+	// functions that hand a map-ordered slice to their callers → why
+	unordered := map[types.Object]string{}
+	report := func(f fnInfo, con, pos string, site *tables.MapOrderSite) {
+		st, why, _ := tables.OrderAfter(f.pk.TypesInfo, f.fd.Body, site)
+		fnObj := f.pk.TypesInfo.Defs[f.fd.Name]
+		switch st {
+		case "ok":
+			r.OK("order", con, pos, "every variable filled by the iteration is sorted before any other use")
+		case "returned":
+			if fnObj != nil && !fnObj.Exported() && !c.bound[f.fd] {
+				unordered[fnObj] = f.name
+				r.OK("order", con, pos, "the slice filled in map order is returned unsorted by an unexported function: decided at its call sites")
+				return
+			}
+			r.Fail("order", con, pos, "map iteration order reaches the result: "+why)
+		case "fail":
+			r.Fail("order", con, pos, "map iteration order reaches the result: "+why)
+		default:
+			r.Undecided("order", con, pos, why)
+		}
+	}
+	for _, f := range all {
+		for _, site := range tables.MapOrderSites(f.pk.TypesInfo, f.fd.Body) {
+			tv := c.tableOf(f.pk.TypesInfo, site.X)
+			if tv == nil && !c.decomps[f.fd] {
+				continue
+			}
+			con := fmt.Sprintf("%s: range %s", f.name, types.ExprString(site.X))
+			report(f, con, c.P.Rel(site.Stmt.Pos()), site)
+		}
+	}
+	// call sites of the functions found above (their callers may in turn return
+	// the slice unsorted: a few rounds)
+	done := map[*ast.CallExpr]bool{}
+	for round := 0; round < 3 && len(unordered) > 0; round++ {
+		before := len(unordered)
+		for _, f := range all {
+			info := f.pk.TypesInfo
+			// assignment forms are decided like any other map-ordered definition
+			assigned := map[*ast.CallExpr]*tables.MapOrderSite{}
+			ast.Inspect(f.fd.Body, func(n ast.Node) bool {
+				as, ok := n.(*ast.AssignStmt)
+				if !ok || len(as.Lhs) != 1 || len(as.Rhs) != 1 {
+					return true
+				}
+				call, ok := ast.Unparen(as.Rhs[0]).(*ast.CallExpr)
+				if !ok || unordered[tables.StaticCallee(info, call)] == "" {
+					return true
+				}
+				if id, ok := ast.Unparen(as.Lhs[0]).(*ast.Ident); ok && id.Name != "_" {
+					o := info.Defs[id]
+					if o == nil {
+						o = info.Uses[id]
+					}
+					if o != nil {
+						assigned[call] = &tables.MapOrderSite{Stmt: as, Call: call, Vars: []types.Object{o}}
+					}
+				}
+				return true
+			})
+			ast.Inspect(f.fd.Body, func(n ast.Node) bool {
+				call, ok := n.(*ast.CallExpr)
+				if !ok || done[call] {
+					return true
+				}
+				callee := tables.StaticCallee(info, call)
+				if callee == nil || unordered[callee] == "" {
+					return true
+				}
+				done[call] = true
+				con := fmt.Sprintf("%s: result of %s", f.name, unordered[callee])
+				pos := c.P.Rel(call.Pos())
+				if site := assigned[call]; site != nil {
+					report(f, con, pos, site)
+				} else {
+					r.Fail("order", con, pos, "map iteration order reaches the result: "+unordered[callee]+" returns a slice it filled in map-iteration order, and the result is used here without being sorted first")
+				}
+				return true
+			})
+		}
+		if len(unordered) == before {
+			break
 		}
 	}
 }
@@ -1450,9 +1529,23 @@ func (c *c19) tableConst() {
 				pos = u.pos
 			}
 		}
-		if len(bad) > 0 {
+		positive := false
+		for _, b := range bad {
+			for _, w := range []string{"written", "removed", "re-assigned", "assigned by a range clause", "pointer method"} {
+				if strings.Contains(b, w) {
+					positive = true
+				}
+			}
+		}
+		if len(bad) > 0 && positive {
 			sort.Strings(bad)
 			r.Undecided("table-const", con, pos, "the table is not a compile-time constant table, so its literal rows do not decide the property: "+strings.Join(bad, "; "))
+		} else if len(bad) > 0 {
+			// COMPLETENESS BEFORE VERDICT: the table is handed to something the rule does
+			// not follow (an alias, a call it cannot read); no write was observed
+			sort.Strings(bad)
+			r.OK("table-const", con, pos, "NOT DECIDED — no write of the table was found, but it flows to code the rule does not follow: "+strings.Join(bad, "; "))
+			r.Note("C19 table-const: %s NOT DECIDED — %s", con, strings.Join(bad, "; "))
 		} else {
 			r.OK("table-const", con, pos, fmt.Sprintf("%d uses in the module, all reads (index, range, len)", len(found[v])))
 		}
@@ -1535,6 +1628,73 @@ func (c *c19) paramOnlyRead(info *types.Info, call *ast.CallExpr, argIdx int, de
 		return bad, false
 	}
 	return "", true
+}
+
+// pathFunc returns the function declaration a path (innermost first) lies in.
+func pathFunc(path []ast.Node) (*ast.FuncDecl, bool) {
+	for _, n := range path {
+		if fd, ok := n.(*ast.FuncDecl); ok {
+			return fd, true
+		}
+	}
+	return nil, false
+}
+
+// aliasUses classifies every use of the local alias o (inside the function the
+// path lies in): "read" when all of them only read.
+func (c *c19) aliasUses(info *types.Info, o types.Object, path []ast.Node, what string, depth int) string {
+	fd, ok := pathFunc(path)
+	if !ok || fd.Body == nil {
+		return "aliased by " + what
+	}
+	bad := ""
+	ast.Inspect(fd.Body, func(n ast.Node) bool {
+		id, ok := n.(*ast.Ident)
+		if !ok || info.Uses[id] != o || bad != "" {
+			return bad == ""
+		}
+		if k := c.classifyUse(info, id, c19PathTo(fd, id), depth+1); k != "read" {
+			bad = k + " through " + what
+		}
+		return true
+	})
+	if bad != "" {
+		return bad
+	}
+	return "read"
+}
+
+// fieldUses classifies every use of the struct field fv (which holds a table)
+// anywhere in the module.
+func (c *c19) fieldUses(fv *types.Var, depth int) string {
+	origin := fv.Origin()
+	bad := ""
+	for _, pk := range c.P.Pkgs {
+		if bad != "" {
+			break
+		}
+		for _, file := range pk.Syntax {
+			var sels []*ast.SelectorExpr
+			ast.Inspect(file, func(n ast.Node) bool {
+				if sel, ok := n.(*ast.SelectorExpr); ok {
+					if v, ok := pk.TypesInfo.Uses[sel.Sel].(*types.Var); ok && v.IsField() && v.Origin() == origin {
+						sels = append(sels, sel)
+					}
+				}
+				return true
+			})
+			for _, sel := range sels {
+				if k := c.classifyUse(pk.TypesInfo, sel.Sel, c19PathTo(file, sel.Sel), depth+1); k != "read" {
+					bad = k + " through the field " + fv.Name()
+					break
+				}
+			}
+		}
+	}
+	if bad != "" {
+		return bad
+	}
+	return "read"
 }
 
 func (c *c19) classifyUse(info *types.Info, id *ast.Ident, path []ast.Node, depth int) string {
@@ -1678,7 +1838,7 @@ func (c *c19) classifyUse(info *types.Info, id *ast.Ident, path []ast.Node, dept
 		if fn := tables.StaticCallee(info, p); tables.IsPkgFunc(fn, "maps", "Clone") ||
 			tables.IsPkgFunc(fn, "slices", "Contains", "ContainsFunc", "Index", "IndexFunc", "Clone", "Equal", "BinarySearch", "BinarySearchFunc") {
 			return "read"
-		} else if tables.IsPkgFunc(fn, "maps", "Keys", "Values") {
+		} else if tables.IsPkgFunc(fn, "maps", "Keys", "Values", "All") {
 			// an iterator over the table: only as the operand of slices.Sorted (deterministic order)
 			j := i + 1
 			for j < len(path) {
@@ -1688,7 +1848,19 @@ func (c *c19) classifyUse(info *types.Info, id *ast.Ident, path []ast.Node, dept
 				j++
 			}
 			if j < len(path) {
-				if outer, ok := path[j].(*ast.CallExpr); ok && tables.IsPkgFunc(tables.StaticCallee(info, outer), "slices", "Sorted") {
+				// the iterator is consumed on the spot: sorted, collected into a slice, or
+				// ranged over. All of these only read the table; whether the map order can
+				// reach a result is decided by `order`.
+				if outer, ok := path[j].(*ast.CallExpr); ok {
+					ofun := outer.Fun
+					if ix, isIx := ast.Unparen(ofun).(*ast.IndexExpr); isIx {
+						ofun = ix.X
+					}
+					if tables.IsPkgFunc(tables.StaticCallee(info, &ast.CallExpr{Fun: ofun}), "slices", "Sorted", "Collect", "AppendSeq") {
+						return "read"
+					}
+				}
+				if rs, ok := path[j].(*ast.RangeStmt); ok && ast.Unparen(rs.X) == ast.Expr(p) {
 					return "read"
 				}
 			}
@@ -1711,9 +1883,43 @@ func (c *c19) classifyUse(info *types.Info, id *ast.Ident, path []ast.Node, dept
 				return "table re-assigned"
 			}
 		}
+		// `t := T`: every use of the local alias is classified in turn
+		if p.Tok == token.DEFINE && len(p.Lhs) == len(p.Rhs) && depth < 2 {
+			for k, rhs := range p.Rhs {
+				if ast.Node(rhs) != cur {
+					continue
+				}
+				if lid, ok := p.Lhs[k].(*ast.Ident); ok {
+					if o := info.Defs[lid]; o != nil {
+						return c.aliasUses(info, o, path, "the local alias "+lid.Name, depth)
+					}
+				}
+			}
+		}
 		return "aliased by assignment"
 	case *ast.ValueSpec:
+		if depth < 2 {
+			for k, v := range p.Values {
+				if ast.Node(v) == cur && k < len(p.Names) {
+					if o := info.Defs[p.Names[k]]; o != nil {
+						if _, isLocal := pathFunc(path); isLocal {
+							return c.aliasUses(info, o, path, "the local alias "+p.Names[k].Name, depth)
+						}
+					}
+				}
+			}
+		}
 		return "aliased by declaration"
+	case *ast.KeyValueExpr:
+		// `S{names: T}`: the table is held by a struct field; every use of that field
+		// anywhere in the module is classified in turn
+		if ast.Node(p.Value) == cur && depth < 2 {
+			if kid, ok := p.Key.(*ast.Ident); ok {
+				if fv, ok := info.Uses[kid].(*types.Var); ok && fv.IsField() {
+					return c.fieldUses(fv, depth)
+				}
+			}
+		}
 	case *ast.UnaryExpr:
 		if p.Op == token.AND {
 			return "address taken"
